@@ -572,7 +572,10 @@ struct BasicOpts {
     int max_alias = 1;
     int family = -1;
     double root_bias = 0.6;
+    double p_gadget = 0.0; // add the non-transitive three-definition gadget
 };
+
+std::vector<int> nontransitive_gadget(Gen& g, int pi, const std::set<int>& used_slots);
 
 // one policy, one world, one registry; fills g.p.recs and returns all records
 std::vector<int> basic_registry(Gen& g, const BasicOpts& o, int pi) {
@@ -594,7 +597,83 @@ std::vector<int> basic_registry(Gen& g, const BasicOpts& o, int pi) {
         for (int di : g.defs(pi, mi, nd, o.focus))
             all.push_back(di);
     }
+    if (g.r.chance(o.p_gadget)) {
+        std::set<int> used(slots.begin(), slots.end());
+        for (int ri : nontransitive_gadget(g, pi, used))
+            all.push_back(ri);
+    }
     return all;
+}
+
+// A method with three definitions X=(A,R), Y=(A1,A), Z=(R,A1) where A1 derives
+// from A, R is unrelated to both, and some class D derives from A1 and R:
+// Y beats X, Z beats Y, X and Z are incomparable - "more specific than every
+// other" and "not beaten" come apart for the tuple (D, D). Returns the records
+// added (none if the lattice has no such classes or no free 2-ary slot).
+std::vector<int> nontransitive_gadget(Gen& g, int pi, const std::set<int>& used_slots) {
+    std::vector<int> out;
+    int n = g.p.w.ncls;
+    static const int two_ary[] = {4, 5, 12, 16, 17};
+    std::vector<int> slots;
+    for (int s : two_ary)
+        if (!used_slots.count(s))
+            slots.push_back(s);
+    if (slots.empty() || n < 5)
+        return out;
+    for (int t = 0; t < 300; ++t) {
+        int A = (int)g.r.below(n), A1 = (int)g.r.below(n), R = (int)g.r.below(n);
+        if (A1 == A || !((g.anc[A1] >> A) & 1u))
+            continue;
+        auto related = [&](int x, int y) {
+            return ((g.anc[x] >> y) & 1u) || ((g.anc[y] >> x) & 1u);
+        };
+        if (related(R, A) || related(R, A1))
+            continue;
+        std::uint32_t common = g.desc[A1] & g.desc[R];
+        bool concrete = false;
+        for (int c = 0; c < n; ++c)
+            if (((common >> c) & 1u) && !g.p.w.abstract[c])
+                concrete = true;
+        if (!concrete)
+            continue;
+        std::uint32_t roots = g.anc[A] & g.anc[R];
+        if (!roots)
+            continue;
+        auto rs = g.bits(roots);
+        int T = rs[g.r.below(rs.size())];
+        Rec m;
+        m.kind = RK_METHOD;
+        m.pol = pi;
+        m.slot = slots[g.r.below(slots.size())];
+        m.vp = {T, T};
+        int mi = g.add(m);
+        out.push_back(mi);
+        int defs[3][2] = {{A, R}, {A1, A}, {R, A1}};
+        for (int d = 0; d < 3; ++d) {
+            Rec def;
+            def.kind = RK_DEF;
+            def.pol = pi;
+            def.meth = mi;
+            def.body = d;
+            def.nonext = g.r.chance(0.2);
+            def.vp = {defs[d][0], defs[d][1]};
+            out.push_back(g.add(def));
+        }
+        // sometimes a definition below all three, which calls next
+        if (g.r.chance(0.4)) {
+            auto cs = g.bits(common);
+            int D = cs[g.r.below(cs.size())];
+            Rec def;
+            def.kind = RK_DEF;
+            def.pol = pi;
+            def.meth = mi;
+            def.body = 3;
+            def.vp = {D, D};
+            out.push_back(g.add(def));
+        }
+        return out;
+    }
+    return out;
 }
 
 void basic_world(Gen& g, const BasicOpts& o, bool small_only) {
@@ -858,6 +937,7 @@ Plan gen_history(
 Plan gen_C01(std::uint64_t seed, int tier) {
     Rng r(seed ^ 0xC01);
     BasicOpts o;
+    o.p_gadget = 0.15;
     o.max_alias = r.chance(0.2) ? 2 : 1;
     if (r.chance(0.25)) {
         HistOpts h;
@@ -956,6 +1036,19 @@ Plan gen_C02(std::uint64_t seed, int tier) {
     o.max_cls = 9;
     o.min_meth = 1;
     o.max_meth = 3;
+    o.p_gadget = 0.25;
+    if (r.chance(0.3)) {
+        // antichain-rich: many simultaneously applicable definitions, where
+        // "more specific than every other" and "maximal" come apart
+        static const int fams[] = {F_LADDER, F_DAG, F_JOIN, F_DIAMONDS};
+        o.family = fams[r.below(4)];
+        o.min_cls = 5;
+        o.max_cls = tier ? 16 : 12;
+        o.slots = {4, 5, 6, 8, 12, 16, 17};
+        o.min_defs = 3;
+        o.max_defs = 12;
+        o.focus = 0.9;
+    }
     Plan p = gen_basic("C02", seed, tier, o);
     p.profile = "errors" + p.profile.substr(5);
     // the handler throws out of the same erroring call many times in a row:
@@ -1169,6 +1262,34 @@ Plan gen_C09(std::uint64_t seed, int tier) {
             use(meths[g.r.below(meths.size())]);
         } else if (what < 9) {
             // an update in the middle of the pointers' lives
+            // the same construction immediately before and after the update
+            // (anything remembered from the first must not serve the second)
+            Event before;
+            bool pattern = g.r.chance(0.5);
+            if (pattern) {
+                pattern = false;
+                int mi = meths[g.r.below(meths.size())];
+                auto& m = g.p.recs[mi];
+                std::string kinds = SLOT_KINDS[m.slot];
+                std::vector<char> vk;
+                for (char c : kinds)
+                    if (c != 'I')
+                        vk.push_back(c);
+                int pos = (int)g.r.below(m.vp.size());
+                auto lc = legal_classes(L, m.vp[pos]);
+                if ((vk[pos] == 'Q' || vk[pos] == 'C' || vk[pos] == 'W') && !lc.empty()) {
+                    before.op = OP_VP_MAKE;
+                    before.pol = 0;
+                    before.vslot = (int)g.r.below(MAXVP);
+                    before.cls = lc[g.r.below(lc.size())];
+                    before.alias = 0;
+                    before.shared = vk[pos] == 'W';
+                    before.route = g.r.chance(0.7) ? RT_REF : (int)g.r.below(before.shared ? 8 : RT_COUNT);
+                    g.p.events.push_back(before);
+                    held[before.vslot] = {true, before.shared != 0, before.cls, epoch};
+                    pattern = true;
+                }
+            }
             if (g.r.chance(0.6)) {
                 if (!b_loaded)
                     g.ev_load(g.order(B));
@@ -1184,6 +1305,12 @@ Plan gen_C09(std::uint64_t seed, int tier) {
             }
             g.ev_update(0);
             ++epoch;
+            if (pattern) {
+                Event after = before;
+                after.vslot = (before.vslot + 1) % MAXVP;
+                g.p.events.push_back(after);
+                held[after.vslot] = {true, after.shared != 0, after.cls, epoch};
+            }
             if (g.r.chance(0.3))
                 g.ev_check(0, routes, 60);
         } else {
@@ -1453,6 +1580,7 @@ Plan gen_C05(std::uint64_t seed, int tier) {
 Plan gen_C03(std::uint64_t seed, int tier) {
     Rng r(seed ^ 0xC03);
     BasicOpts o;
+    o.p_gadget = 0.15;
     o.min_defs = 2;
     o.max_defs = 12;
     o.focus = 0.85;
@@ -1478,12 +1606,23 @@ Plan gen_C04(std::uint64_t seed, int tier) {
     o.max_meth = 7;
     o.max_defs = 3;
     o.root_bias = 0.3; // parameters anywhere in the lattice
+    if (r.chance(0.3)) {
+        // the dispatch data is re-sized by every update of a history
+        HistOpts h;
+        h.b = o;
+        h.b.max_meth = 5;
+        h.min_steps = 4;
+        h.max_steps = 14;
+        h.faults = r.chance(0.3);
+        return gen_history("C04", seed, tier, h, "");
+    }
     return gen_basic("C04", seed, tier, o);
 }
 
 Plan gen_C17(std::uint64_t seed, int tier) {
     Rng r(seed ^ 0xC17);
     BasicOpts o;
+    o.p_gadget = 0.1;
     o.p_abstract = r.chance(0.5) ? 0.35 : 0.2;
     o.max_defs = 7;
     o.slots = REF_SLOTS;
@@ -1493,6 +1632,7 @@ Plan gen_C17(std::uint64_t seed, int tier) {
 Plan gen_C06(std::uint64_t seed, int tier) {
     Rng r(seed ^ 0xC06);
     BasicOpts o;
+    o.p_gadget = 0.25;
     o.min_defs = 2;
     o.max_defs = 10;
     o.focus = 0.85;
